@@ -1320,7 +1320,30 @@ func genFactsOf(fg *FGraph, vi *varInfo, n ast.Node) []Fact {
 	}
 	rhs := as.Rhs[0]
 	tv, ok := fg.Info.Types[rhs]
-	if !ok || !isIntegerType(tv.Type) {
+	if !ok {
+		return nil
+	}
+	// x := make([]T, n): len(x) == n until x or an operand of n is re-bound
+	if mk, isCall := ast.Unparen(rhs).(*ast.CallExpr); isCall && calleeName(fg.Info, mk) == "builtin.make" && len(mk.Args) >= 2 {
+		if _, isSlice := tv.Type.Underlying().(*types.Slice); isSlice {
+			if _, isC := constInt(fg.Info, mk.Args[1]); isC || isPureIntExpr(fg.Info, mk.Args[1]) {
+				self := false
+				ast.Inspect(mk.Args[1], func(x ast.Node) bool {
+					if i2, ok := x.(*ast.Ident); ok && fg.Info.Uses[i2] == ob {
+						self = true
+					}
+					return true
+				})
+				if !self {
+					ln := &ast.CallExpr{Fun: ast.NewIdent("len"), Args: []ast.Expr{id}}
+					synthLen[ln] = true
+					return []Fact{{&ast.BinaryExpr{X: ln, Op: token.EQL, Y: mk.Args[1]}, nil, true}}
+				}
+			}
+		}
+		return nil
+	}
+	if !isIntegerType(tv.Type) {
 		return nil
 	}
 	mentionsSelf := false
@@ -1333,6 +1356,13 @@ func genFactsOf(fg *FGraph, vi *varInfo, n ast.Node) []Fact {
 	if mentionsSelf {
 		return nil
 	}
+	return genIntFacts(fg, id, rhs, tv)
+}
+
+// synthLen marks len(x) calls built by the analysis itself (they have no type information).
+var synthLen = map[*ast.CallExpr]bool{}
+
+func genIntFacts(fg *FGraph, id *ast.Ident, rhs ast.Expr, tv types.TypeAndValue) []Fact {
 	var out []Fact
 	if tv.Value != nil || isPureIntExpr(fg.Info, rhs) {
 		for _, op := range []token.Token{token.EQL, token.GEQ, token.LEQ} {
